@@ -10,6 +10,7 @@ structure St where
   sys : Publish.Sys := Publish.init []
   descs : List (Nat × String) := []     -- contents of the snapshot files by id
   savepoints : List Nat := []           -- published savepoints whose artifact the harness can restore (no operators)
+  artifacts : List Nat := []            -- ids of the savepoint artifacts in the storage (operator-less published savepoints)
   armed : Bool := false                 -- the harness parks the next `sourceSplitter.Checkpoint()`
   held : Option Call := none            -- the call that is inside `Checkpoint()`: it holds `stateMu`
   queue : List Call := []               -- calls issued meanwhile: blocked on `stateMu`, run after it in order
@@ -59,7 +60,8 @@ def call2 (st : St) (c : Call) : St × String × String :=
     let s3 := applyAll s2 (s2.pub.removes.map Publish.Act.remove)
     let out := s!"{showRes r} pub {descOf snap}"
     ({ st with sys := s3, descs := (snap.id, descOf snap) :: st.descs,
-               savepoints := if snap.isSavepoint && snap.opEntries.isEmpty then snap.id :: st.savepoints else st.savepoints },
+               savepoints := if snap.isSavepoint && snap.opEntries.isEmpty then snap.id :: st.savepoints else st.savepoints,
+               artifacts := if snap.isSavepoint && snap.opEntries.isEmpty then snap.id :: st.artifacts else st.artifacts },
      out, out)
   | _ => (st, "model-error", "model-error")
 
@@ -110,7 +112,7 @@ def step (st : St) : List String → St × String
       let written := if mode == "fresh" then [] else st.sys.pub.written
       -- a fresh storage location starts a new lineage from the savepoint; in the job's own storage the ids
       -- handed out so far stay taken
-      let st' := { st with sys := Publish.bootSavepoint (natOr k) files written st.sys.pub.delivered, armed := false,
+      let st' := { st with sys := Publish.bootSavepoint (natOr k) files written st.sys.pub.delivered [] [] st.artifacts, armed := false,
                            maxHanded := if mode == "fresh" then natOr k else st.maxHanded, spConfig := some (natOr k) }
       -- D64 (open): the job is ALREADY configured with this savepoint (this is a restart of the same job, not a
       -- reconfiguration) and its storage holds a newer completed checkpoint: the code goes back to the savepoint,
